@@ -864,7 +864,7 @@ package saml
 //@ go func locationOK(b string, l string) bool {
 //@    return (knownBinding(b) && (SchemeOf(l) == "http" || SchemeOf(l) == "https")) || (!knownBinding(b) && l == "") }
 //@ contract checkEndpointLocation
-//@ ensures[C14] filtered: err == nil ==> locationOK(binding, result) && (knownBinding(binding) ==> result == location)
+//@ ensures[C14,C15] filtered: err == nil ==> locationOK(binding, result) && (knownBinding(binding) ==> result == location)
 //@ contract (*Endpoint).UnmarshalXML
 //@ requires[cfg] d: d != nil
 //@ -- each location is checked, and replaced, by its own filtered value (C15: parsing preserves http(s) endpoints)
